@@ -7,8 +7,9 @@ Python modelled (all in /repo/src/aiu_trace_analyzer):
                                               can drop; empty `--event_filter`)
     `NormalizationContext.tsx_32bit_local_correction` → `localFix`, `firstWrap`, reference update
     `init_reference_overflow`, `update_reference_overflow` → `epochStart`, `Ctx.epoch` running minimum per pid
-    `frequency_stats`             → only its two `ZeroDivisionError`s (`dur == 0`, equal `ts` of two
-                                    consecutive `Cmpt Exec` slices of one pid); its numbers never reach an event
+    `frequency_stats`             → only its `ZeroDivisionError` (`float(dur_cycles) / event["dur"]` of a
+                                    `Cmpt Exec` slice with `dur == 0`); its numbers never reach an event (the
+                                    equal-start-time division was repaired in /repo 9ff54c0)
     `normalize_phase2`, `tsx_32bit_global_correction`, `get_overflow_count` → `step2`
     `NormalizationContext._get_ref_ts` → `PhaseName.refIdx`
     `NormalizationContext.drain`  → returns `[]` and keeps `queues` (the state survives the drain in `pipeline`)
@@ -76,14 +77,12 @@ def firstWrapAux (prev : Int) (k : Nat) : List Int → Option Nat
 
 def firstWrap (cs : List Int) : Option Nat := firstWrapAux prev0 1 cs
 
-/-- state of `NormalizationContext` that can influence an event or raise -/
+/-- state of `NormalizationContext` that can influence an event -/
 structure Ctx where
   /-- `queues[hash(pid)]["0"][0]`: earliest epoch start seen for the pid -/
   epoch : Int → Option Rat
-  /-- `prev_event_data[hash(pid)]["interval"].ts` once `count > 0` -/
-  lastExec : Int → Option Rat
 
-def Ctx.empty : Ctx := ⟨fun _ => none, fun _ => none⟩
+def Ctx.empty : Ctx := ⟨fun _ => none⟩
 
 /-- `is_ignored_type`: `event_type in "M"` (substring test) -/
 def ignoredType (ph : String) : Bool := ph == "M" || ph == ""
@@ -117,11 +116,8 @@ def step1 (f : Rat) (c : Ctx) (e : Ev) : Except String (Ctx × List Ev) :=
       | some cyc =>
         let c1 : Ctx := { c with epoch := setAt c.epoch e.pid (updEpoch (c.epoch e.pid) (epochStart f e.ts cyc)) }
         let e' : Ev := { e with tsx := some fixed, tsxof := firstWrap raw }
-        if hasSub e.name "Cmpt Exec" then
-          -- frequency_stats: float(dur_cycles)/event["dur"], then float(gap_cycles)/gap_time
-          if e.dur = 0 then .error "zerodiv"
-          else if c.lastExec e.pid = some e.ts then .error "zerodiv"
-          else .ok ({ c1 with lastExec := setAt c.lastExec e.pid e.ts }, [e'])
+        -- frequency_stats: float(dur_cycles) / event["dur"]
+        if hasSub e.name "Cmpt Exec" && decide (e.dur = 0) then .error "zerodiv"
         else .ok (c1, [e'])
 
 /-- phase 1 streamed over the input; the emitted events are what the barrier holds -/
